@@ -14,8 +14,11 @@ EXTENDS ConvContractLayer, TLC, Json, IOUtils
 Cases == JsonDeserialize(IOEnv.LAYER_INPUT).cases
 VARIABLE st
 Init == st = [kind |-> "init"]
-Pick == st.kind = "init" /\ \E n \in 1..Len(Cases) : st' = [kind |-> "case", n |-> n]
-Next == Pick
+(* two-level fan-out: a one-level star (all cases successors of the initial state) is expanded by a single TLC worker *)
+NSh == 16
+PickShard == st.kind = "init" /\ \E s \in 0..(NSh - 1) : st' = [kind |-> "shard", s |-> s]
+Pick == st.kind = "shard" /\ \E n \in 1..Len(Cases) : n % NSh = st.s /\ st' = [kind |-> "case", n |-> n]
+Next == PickShard \/ Pick
 
 WOf(cs) == [pr \in {<<cs.W[i].si, cs.W[i].ti>> : i \in 1..Len(cs.W)} |->
               cs.W[CHOOSE i \in 1..Len(cs.W) : <<cs.W[i].si, cs.W[i].ti>> = pr].w]
